@@ -72,7 +72,7 @@ def _task(rng, to, gates=True):
     elif k < 0.85 and gates:
         op = ["enq", "gate", rng.randrange(2)]
     else:
-        op = ["enq", "sleep", rng.choice([to / 2, to, 2 * to, 1.0])]
+        op = ["enq", "sleep", rng.choice([to / 2, to, 1.5 * to, 2 * to, 1.0])]
     if rng.random() < 0.2:
         # the task is not a plain function: functools.partial or a callable object
         op.append(rng.choice(["partial", "object"]))
@@ -137,7 +137,7 @@ def gen_mixed(rng, focus=None, tier="quick"):
             elif k < 0.65 and n:
                 ops.append(["res", rng.randrange(n), rng.choice([0, to / 2, to, 4 * to])])
             elif k < 0.8:
-                ops.append(["join", rng.choice([0, 0.5, to, 2 * to])])
+                ops.append(["join", rng.choice([0, 0.5, to, 2 * to, 4 * to])])
             elif k < 0.92:
                 ops.append(["sleep", rng.choice([to / 2, to, 2 * to])])
             else:
@@ -275,6 +275,15 @@ def gen_race(rng):
     while a second thread enqueues; executed under every single pre-emption point of the run, so that a window of
     one statement in start()/stop()/enqueue()/join() is met whatever its position.
     """
+    if rng.random() < 0.3:
+        # the bookkeeping a race around stop()/start() may damage shows when the pool has to grow afterwards: two
+        # mutually dependent tasks after the restart
+        cfg = {"max": 2, "min": rng.choice([0, 1, 1]), "qsize": 0, "timeout": rng.choice([0.5, 2.0])}
+        ctl = [["start"]]
+        if rng.random() < 0.5:
+            ctl.append(["enq", "ret", 0])
+        ctl += [["stop"], ["start"], ["enq", "bar", [0, 2]], ["enq", "bar", [0, 2]]]
+        return {"family": "growth", "cfg": cfg, "threads": [ctl, [["enq", "ret", 0]]], "sweep": True}
     mx = rng.choice([1, 1, 2])
     cfg = {"max": mx, "min": rng.randrange(0, mx + 1), "qsize": 0, "timeout": rng.choice([0.5, 2.0])}
     to = cfg["timeout"]
@@ -367,6 +376,7 @@ def parse(program, log):
             t = h.tasks.get(ev[3])
             if t is not None:
                 t["ends"].append(idx)
+                t.setdefault("end_times", []).append(ev[4] if len(ev) > 4 else None)
         elif kind == "thread.start":
             h.workers[ev[3]] = {"start": idx, "exit": INF, "gets": [], "cur": None}
         elif kind == "thread.exit":
@@ -682,7 +692,7 @@ def analyse(program, log, verdict, thread_errors=()):
         to = program["threads"][op["ti"]][op["oi"]][1] if op["oi"] < 1000 else None
         if to is not None and op["t1"] - op["t0"] > to + 1.0:  # one virtual second of slack for implementations that poll
             v.append(Violation("C11", "join-timeout", "overrun", "join(%r) took %r virtual seconds" % (to, op["t1"] - op["t0"])))
-        if op["out"] != "join:True":
+        if op["out"] not in ("join:True", "join:False"):
             continue
         # judged only on a running pool: started before, no stop overlapping
         running = False
@@ -698,6 +708,20 @@ def analyse(program, log, verdict, thread_errors=()):
             if sc > last_start and sc < op["ret"]:
                 running = False
         if not running:
+            continue
+        if op["out"] == "join:False":
+            # False is justified by a task that has not finished within the time-out; giving up before the time-out
+            # although everything accepted so far finishes inside it is not
+            # (judged only when no enqueue overlaps the call: a task that arrives after the waiters were told
+            # "all done" legitimately turns the answer into False at once)
+            if to is not None and to > 0 and op["t1"] - op["t0"] < to and \
+                    not any(t["enq_call"] < op["ret"] and t["enq_ret"] > op["call"] for t in h.tasks.values()):
+                mine = [t for t in h.tasks.values() if t["accepted"] and t["enq_call"] < op["ret"]]
+                if mine and all(t.get("end_times") and t["end_times"][0] is not None and t["end_times"][0] <= op["t0"] + to
+                                for t in mine) and not any(sc < op["ret"] for sc, _ in h.clears if sc > op["call"]):
+                    v.append(Violation("C11", "join-timeout", "gave-up-early",
+                                       "join(%r) returned False after %r virtual seconds although every task finished within the time-out" % (
+                                           to, op["t1"] - op["t0"])))
             continue
         for tid in sorted(h.tasks):
             t = h.tasks[tid]
